@@ -382,6 +382,9 @@ string Subprocess::communicate(
     close(this->stdin_write_fd);
     this->stdin_write_fd = -1;
   } else {
+    // Writes to the child must never block: the child may be unable to read
+    // its input until we have read some of its output
+    make_fd_nonblocking(this->stdin_write_fd);
     p.add(this->stdin_write_fd, POLLOUT);
   }
   p.add(this->stdout_read_fd, POLLIN);
@@ -389,22 +392,18 @@ string Subprocess::communicate(
   size_t stdin_offset = 0;
   size_t stdout_bytes = 0;
   deque<string> stdout_queue;
-  while ((this->wait(true) < 0) && (now() < deadline_usecs)) {
-    if (p.empty()) {
-      this->wait();
-      break;
-    }
-
-    int timeout_ms;
+  bool timed_out = false;
+  // Run until the child has closed its stdout (so none of its output can be
+  // lost, even if it has already exited) and has taken or refused all input
+  while (!p.empty()) {
+    int timeout_ms = -1;
     if (deadline_usecs) {
       uint64_t t = now();
-      if (t < deadline_usecs) {
-        timeout_ms = (deadline_usecs - t) / 1000;
-      } else {
-        timeout_ms = 0;
+      if (t >= deadline_usecs) {
+        timed_out = true;
+        break;
       }
-    } else {
-      timeout_ms = -1;
+      timeout_ms = (deadline_usecs - t + 999) / 1000;
     }
     auto events = p.poll(timeout_ms);
 
@@ -417,7 +416,7 @@ string Subprocess::communicate(
         stdout_bytes += stdout_queue.back().size();
       }
     }
-    if (events.count(this->stdin_write_fd)) {
+    if ((this->stdin_write_fd >= 0) && events.count(this->stdin_write_fd)) {
       size_t bytes_remaining = stdin_size - stdin_offset;
       ssize_t bytes_written = write(
           this->stdin_write_fd,
@@ -425,7 +424,9 @@ string Subprocess::communicate(
           bytes_remaining);
 
       bool should_close_stdin = false;
-      if (bytes_written <= 0) {
+      if (bytes_written < 0 && (errno == EAGAIN || errno == EWOULDBLOCK || errno == EINTR)) {
+        // Not ready after all; try again after the next poll
+      } else if (bytes_written <= 0) {
         should_close_stdin = true;
       } else {
         stdin_offset += bytes_written;
@@ -439,12 +440,15 @@ string Subprocess::communicate(
     }
   }
 
-  if (now() >= deadline_usecs) {
+  if (timed_out) {
     // TODO: we should be a bit more polite here - send SIGTERM, wait a few
     // seconds, then send SIGKILL
-    this->kill(SIGKILL);
+    if (this->wait(true) < 0) {
+      this->kill(SIGKILL);
+    }
     throw runtime_error("Subprocess::communicate timed out");
   }
+  this->wait();
 
   if (stdout_queue.empty()) {
     return "";
